@@ -154,6 +154,14 @@ func GenRequests(g *tape.Stream, fg *tape.Stream, s *Setup, p *Profile) [][]*Req
 				q.Hijacker = 1
 			}
 			q.ReaderFrom = g.Intn(3) == 1
+			switch g.Intn(10) { // request headers that middleware is known to special-case
+			case 1:
+				q.Hdr = append(q.Hdr, [2]string{"Upgrade", "websocket"}, [2]string{"Connection", "Upgrade"})
+			case 2:
+				q.Hdr = append(q.Hdr, [2]string{"X-Requested-With", "XMLHttpRequest"})
+			case 3:
+				q.Hdr = append(q.Hdr, [2]string{"Content-Type", "application/json"}, [2]string{"Origin", "https://example.org"})
+			}
 			if s.BeforeStop && g.Intn(12) == 1 {
 				q.Hdr = append(q.Hdr, [2]string{"X-Stop", "1"})
 			}
